@@ -10,6 +10,8 @@
 import json, os, re, shutil, subprocess, sys, time
 
 VERIF = os.path.dirname(os.path.dirname(os.path.abspath(__file__)))
+# evidence written while /repo is modified must never land in /verif/evidence
+os.environ["IPT_EVIDENCE_DIR"] = os.path.join(VERIF, "build", "evidence-scratch")
 
 def sh(cmd, cwd=None, timeout=3600):
     try:
